@@ -58,3 +58,8 @@ Proof. exact write_accepted. Qed.
 (* a key found under type t was stored under type t: keys carry the type *)
 Theorem C13_lookup_is_by_type : forall a b : key, key_eqb a b = true <-> a = b.
 Proof. exact key_eqb_eq. Qed.
+
+(* a reload replaces a value only by one of the same type, whole *)
+Theorem C13_code_reload_swaps_whole_same_typed_values :
+  write_guards_type UntypedEntry_write = true /\ swap_any_wf swap_any = true.
+Proof. exact reload_swaps_whole_same_typed_values. Qed.
